@@ -206,6 +206,7 @@ type Reporter struct {
 	KnownHits  map[string]int
 	Notes      []string
 	replayN    int
+	ReplayPath string // set in replay mode: violations refer to this file, nothing is written
 	seenSig    map[string]bool
 }
 
@@ -241,12 +242,15 @@ func (r *Reporter) Report(sig Signature, detail string, replay any) {
 	}
 	r.seenSig[key] = true
 	r.replayN++
-	dir := filepath.Join(VerifDir(), "replays")
-	os.MkdirAll(dir, 0o755)
-	path := filepath.Join(dir, fmt.Sprintf("%s-%d-%d.json", r.Prop, r.SeedV, r.replayN))
-	doc := map[string]any{"property": r.Prop, "tier": r.Tier, "seed": r.SeedV, "signature": sig, "detail": detail, "replay": replay}
-	b, _ := json.MarshalIndent(doc, "", " ")
-	os.WriteFile(path, append(b, '\n'), 0o644)
+	path := r.ReplayPath
+	if path == "" {
+		dir := filepath.Join(VerifDir(), "replays")
+		os.MkdirAll(dir, 0o755)
+		path = filepath.Join(dir, fmt.Sprintf("%s-%d-%d.json", r.Prop, r.SeedV, r.replayN))
+		doc := map[string]any{"property": r.Prop, "tier": r.Tier, "seed": r.SeedV, "signature": sig, "detail": detail, "replay": replay}
+		b, _ := json.MarshalIndent(doc, "", " ")
+		os.WriteFile(path, append(b, '\n'), 0o644)
+	}
 	r.Violations = append(r.Violations, Violation{Sig: sig, Replay: path, Detail: detail})
 	fmt.Printf("VIOLATION property=%s replay=%s\n", r.Prop, path)
 	fmt.Printf("  signature: %s\n", key)
